@@ -521,6 +521,13 @@ pub fn minimise(prop: &Property, sc: &Scenario, choices: Vec<u64>, clause: &str,
         let out = execute(prop, sc, Choices::replay(list.to_vec()), false);
         match out.verdict {
             Err(v) if v.clause == clause => {
+                // A candidate is kept only if it fails the same way a second time: code under test
+                // that has entropy of its own (a change that builds a fresh hash map and iterates
+                // it) must not steer the shrinking towards an input that fails only now and then.
+                let again = execute(prop, sc, Choices::replay(list.to_vec()), false);
+                if !matches!(&again.verdict, Err(v2) if v2.clause == clause) {
+                    return None;
+                }
                 // canonical form: what was actually consumed, trailing zeros dropped
                 let mut log = out.choices;
                 while log.last() == Some(&0) {
